@@ -37,3 +37,15 @@ def basic_shape_clauses(res, k, n):
         "flag_in_alphabet": alg.and_(alg.not_(res.flagnan(k)), is_flag(res.flag(k))),
         "not_masked": alg.not_(res.masked(k)),
     }
+
+
+import itertools  # noqa: E402
+from fractions import Fraction  # noqa: E402
+
+H = Fraction(1, 2)
+ALPHABET = (-2, -H, 0, 1, 3, None)
+
+
+def series_grid(maxn, alphabet=ALPHABET, minn=0):
+    for n in range(minn, maxn + 1):
+        yield from itertools.product(alphabet, repeat=n)
